@@ -51,7 +51,13 @@ impl Parser {
                             .to_owned(),
                     )]);
                 }
-                break;
+
+                // an argument beyond the last parameter: not silently dropped
+                return Err(vec![new_err(
+                    child.as_span(),
+                    &input.user_data().get_source_file_name(),
+                    format!("this function's signature specifies {idx} parameter(s), but more arguments were supplied (Expected arguments: `({expected_parameters})`)"),
+                )]);
             }
 
             child_span = child.as_span();
